@@ -58,7 +58,8 @@ def corpus_text(h, upto=None):
         hist = hist[:upto + 1]
     t = f"#pipeline {h['pipeline']} {h['opt']}\n#history {' '.join(hist)}\n"
     for i, n in enumerate(h.get("names", [])):
-        t += f"#srcname {i} {unesc(n)}\n"
+        u = unesc(n)
+        t += (f"#srcname {i} {u}\n" if re.fullmatch(r"[A-Za-z0-9_.\-]+", u) else f"#srcnamehex {i} {u.encode('utf-8').hex()}\n")
     for s in h["sources"]:
         u = unesc(s)
         exact = "\r" in u or not u.endswith("\n") or any(l != l.rstrip() for l in u.split("\n")) or u.endswith("\n\n")
@@ -416,7 +417,8 @@ def run(ctx):
     coll = st.pop("key_collisions")
     ctx.cov["history_oracle"] = st
     ctx.cov["hash_injectivity_probe"] = {
-        "what": "hypothesis `hash injective on the sources used` of cache_transparent, checked on the family pools: for every ordered pair of "
+        "what": "hypothesis `hash injective on the requested (name, content) pairs` of cache_transparent(_on_named_sources), checked on the family pools "
+                "(near-identical texts under one name, and name/content boundary shifts with equal name ++ content): for every ordered pair of "
                 "distinct (name, content) a cacheable probe stage in a real Pipeline must run again for the second request (a shared key would serve it from the cache)",
         "pairs_probed": stats["key_pairs_probed"], "collisions": len(coll), "examples": coll[:6]}
     if coll:
@@ -432,6 +434,9 @@ def run(ctx):
         "newline, extra blank lines, blank line inside a multi-line string literal, other literal content, trailing tab in the literal, all under "
         "the SAME name, plus the base text under another name; a comparison chain turns the literal's content into the returned value; every "
         "ordered pair [i, j] and three complete orders run against one pipeline, and every pair goes through the key-injectivity probe. "
+        "boundary families (same count): sources (name p ++ T[..k], content T[k..]) for 6 cut points of an expression T incl. k = 0 and the empty "
+        "content, plus a two-line program cut at the line break -- name ++ content is one text, the programs differ; every ordered pair as "
+        "[C i, C j] and [E i, E j], three complete mixed orders, and the probe: injectivity of the key on (name, content) PAIRS. "
         "proto: random stage lists (names incl. duplicates and 'vm' in the middle, cacheable flags, stateful counters, failing/Value/"
         "Compiled-with-k-heap-objects actions) x histories, compared with the Coq model; layout: top-level let/fn declaration lists with "
         "re-declarations; det: generated sources + imports of std modules in all three forms + 0-3 user modules + up to 32 extra globals, "
